@@ -221,6 +221,7 @@ fn seen(tag: String, params: &Params, marker: &Option<String>) -> Seen {
         path_vec: Some(dec),
         marker: marker.clone(),
         match_pattern: None,
+        guard_marker: String::new(),
     }
 }
 
